@@ -209,6 +209,13 @@ def _gen_spec(rng: Rng, want_mc, min_ports, profile, mc_triggers=False) -> dict:
             cpp, codec = rng.choice([('const std::string&', 'str'), ('const ::sim::Tracked&', 'tracked'), ('const TokStr &', 'str'),
                                      ('::sim::Tracked const&', 'tracked'), ('const long&', 'long')])
             externs.append({'kind': 'extern', 'ns': ns, 'name': fresh_name(ns), 'cpp': cpp, 'codec': codec, 'in_only': True})
+    # data types spelled as raw pointers: copied like any value, in every direction
+    if rng.chance(25):
+        for _ in range(rng.between(1, 2)):
+            ns = pick_ns()
+            cpp, codec = rng.choice([('const ::sim::Tracked*', 'ptr_tracked'), ('const long*', 'ptr_long'), ('long *', 'ptr_long'),
+                                     ('::sim::Tracked const *', 'ptr_tracked')])
+            externs.append({'kind': 'extern', 'ns': ns, 'name': fresh_name(ns), 'cpp': cpp, 'codec': codec})
     # ---- namespace level enums / subints
     enums = []
     for _ in range(rng.between(1 if want_mc else 0, 3)):
